@@ -1,0 +1,50 @@
+//go:build verif
+// +build verif
+
+// Package verifx re-exports the internal blocklist and handshake packages for external
+// runtime monitors. It does not import package libp2p itself.
+package verifx
+
+import (
+	"time"
+
+	"github.com/gauss-project/aurorafs/pkg/p2p/libp2p/internal/blocklist"
+	"github.com/gauss-project/aurorafs/pkg/p2p/libp2p/internal/handshake"
+	"github.com/gauss-project/aurorafs/pkg/p2p/libp2p/internal/handshake/pb"
+	"github.com/gauss-project/aurorafs/pkg/storage"
+)
+
+type (
+	Blocklist = blocklist.Blocklist
+
+	HandshakeService            = handshake.Service
+	AdvertisableAddressResolver = handshake.AdvertisableAddressResolver
+
+	Syn        = pb.Syn
+	Ack        = pb.Ack
+	SynAck     = pb.SynAck
+	BzzAddress = pb.BzzAddress
+)
+
+var (
+	NewHandshake = handshake.New
+
+	ErrNetworkIDIncompatible = handshake.ErrNetworkIDIncompatible
+	ErrInvalidAck            = handshake.ErrInvalidAck
+	ErrInvalidSyn            = handshake.ErrInvalidSyn
+	ErrWelcomeMessageLength  = handshake.ErrWelcomeMessageLength
+	ErrPicker                = handshake.ErrPicker
+)
+
+const (
+	HandshakeProtocolName    = handshake.ProtocolName
+	HandshakeProtocolVersion = handshake.ProtocolVersion
+	HandshakeStreamName      = handshake.StreamName
+	MaxWelcomeMessageLength  = handshake.MaxWelcomeMessageLength
+)
+
+// NewBlocklist constructs the internal blocklist over a state store.
+func NewBlocklist(store storage.StateStorer) *Blocklist { return blocklist.NewBlocklist(store) }
+
+// SetBlocklistTimeNow replaces the blocklist clock; the returned function restores it.
+func SetBlocklistTimeNow(f func() time.Time) (restore func()) { return blocklist.VerifSetTimeNow(f) }
